@@ -193,19 +193,23 @@ def approximate_scenarios(rep, prog, deep):
     ap = prog.body(APPROX)
     half = Fraction(1, 2)
 
-    ilog_args, entries = [], []
+    ilog_args, entries, depth_box = [], [], [10]
 
     def run(accept, ilog=0, npts=4, intercept=False):
         asked = []
+        # the logarithm the budget is built from: the model's answer where the code calls ilog2, the real floor(log2(len)) where it
+        # computes it another way (BITS - 1 - leading_zeros, a loop)
+        depth_box[0] = 10 + npts.bit_length() - 1
         scell = A.Frame(None)
         scell.locals[0] = ("adt", ADT, "BezierSpline", [("array", [S.sym("p%d" % i) for i in range(npts)])])
 
         def m_ilog(it, args, c, d):
             ilog_args.append((npts, A.deref_all(it, args[0])))
+            depth_box[0] = 10 + ilog
             return ilog
 
         def m_do(it, args, c, d):
-            entries.append((ilog, [A.deref_all(it, x) for x in args[1:4]]))
+            entries.append((depth_box[0], [A.deref_all(it, x) for x in args[1:4]]))
             return ("tuple", [])
 
         def m_eval(it, args, c, d):
@@ -231,7 +235,7 @@ def approximate_scenarios(rep, prog, deep):
             ends = sorted(t for t, cf in node.items() if cf == -half)
             ok = len(mids) == 1 and len(ends) == 2 and len(node) == 3 and ends[0] < mids[0] < ends[1] and ends[0] + ends[1] == 2 * mids[0]
             asked.append((tuple(ends), ok))
-            if len(asked) > 2200 or (len(ends) == 2 and ends[1] - ends[0] < 2.0 ** -11):
+            if len(asked) > 2 ** (depth_box[0] + 1) + 200 or (len(ends) == 2 and ends[1] - ends[0] < 2.0 ** -(depth_box[0] + 1)):
                 raise TooDeep()          # more pieces than exist down to depth 10, or a piece narrower than depth 10 allows
             return int(accept(mids[0] if mids else None, tuple(ends)))
         models = {"BezierSpline::<T>::eval": m_eval, "ops::function::Fn::call": m_halt, ">::ilog2": m_ilog}
@@ -280,15 +284,16 @@ def approximate_scenarios(rep, prog, deep):
                 raise common.Infra("C17.R-term: approximate() could not be interpreted up to its do_approx call (%s)" % e)
         got = [(il, v) for il, v in entries]
         ok_ends = bool(got) and all(v[0] == ("f", 0.0) and v[1] == ("f", 1.0) for _il, v in got)
-        ok_bud = bool(got) and all(v[2] == 10 + il for il, v in got)
-        rep.inst("C17.R-term", "approximate starts do_approx(0.0, 1.0, 10 + len.ilog2(), ..): interval=%s budget=%s (ilog2 = 0 -> %s, ilog2 = 3 -> %s)"
-                 % (ok_ends, ok_bud, [v[2] for il, v in got if il == 0], [v[2] for il, v in got if il == 3]), config=cfg)
+        ok_bud = bool(got) and all(v[2] == want_ for want_, v in got)
+        rep.inst("C17.R-term", "approximate starts do_approx(0.0, 1.0, 10 + ilog2(len), ..): interval=%s budget=%s (expected %s, got %s)"
+                 % (ok_ends, ok_bud, [w_ for w_, _v in got], [v[2] for _w, v in got]), config=cfg)
         if not ok_ends:
             ok_all = False
             rep.violate("C17.R-ends", "R-ends|interval", ap.where(), "approximate does not subdivide the whole parameter interval [0, 1] (%s)" % [str(v[:2])[:60] for _il, v in got][:1], config=cfg)
         if not ok_bud:
             ok_all = False
-            rep.violate("C17.R-term", "R-term|budget", ap.where(), "initial depth budget is not 10 + len.ilog2(): with ilog2 = 0 / 3 it is %s" % [str(v[2])[:30] for _il, v in got], config=cfg)
+            rep.violate("C17.R-term", "R-term|budget", ap.where(), "initial depth budget is not 10 + ilog2(number of control points): expected %s, it is %s"
+                        % ([w_ for w_, _v in got], [str(v[2])[:30] for _w, v in got]), config=cfg)
     bad_ilog = sorted({(n_, str(a_)[:30]) for n_, a_ in ilog_args if a_ != n_})
     rep.inst("C17.R-term", "ilog2 in approximate() is taken of the number of control points (%d evaluations): %s" % (len(ilog_args), not bad_ilog), config=cfg)
     if bad_ilog:
@@ -300,8 +305,8 @@ def approximate_scenarios(rep, prog, deep):
             out, asked = run(lambda m, e: False, ilog=0)
         except TooDeep:
             ok_all = False
-            rep.violate("C17.R-term", "R-term|budget-exhaustion", ap.where(), "with a criterion that never accepts and a budget of 10, approximate() subdivides below depth 10 (a piece narrower than 2^-10, or more "
-                        "than the 2047 pieces that exist down to that depth): the subdivision does not stop at the depth budget", config=cfg)
+            rep.violate("C17.R-term", "R-term|budget-exhaustion", ap.where(), "with a criterion that never accepts and a budget of %d, approximate() subdivides below that depth (a piece narrower than 2^-%d, or more "
+                        "pieces than exist down to that depth): the subdivision does not stop at the depth budget" % (depth_box[0], depth_box[0]), config=cfg)
             out, asked = None, []
         except (A.Undecided, A.Panic) as e:
             raise common.Infra("C17.R-term: approximate() could not be interpreted with a criterion that never accepts (%s)" % e)
@@ -309,11 +314,12 @@ def approximate_scenarios(rep, prog, deep):
             rep.inst("C17.R-leaf", "approximate() against fixed subdivision trees: budget exhaustion FAILED", config=cfg)
             return False
         n_deep = len(out)
-        want = [ev(k / 1024.0) for k in range(1024)] + [S.sym("p3")]
+        n_leaves = 2 ** depth_box[0]
+        want = [ev(k / float(n_leaves)) for k in range(n_leaves)] + [S.sym("p3")]
         if out != want:
             ok_all = False
-            rep.violate("C17.R-term", "R-term|budget-exhaustion", ap.where(), "with a criterion that never accepts and a budget of 10, approximate() returns %d points instead of the 1024 "
-                        "pieces of depth 10 plus the last control point: the subdivision does not stop at (or does not reach) the depth budget" % len(out), config=cfg)
+            rep.violate("C17.R-term", "R-term|budget-exhaustion", ap.where(), "with a criterion that never accepts and a budget of %d, approximate() returns %d points instead of the %d "
+                        "pieces of that depth plus the last control point: the subdivision does not stop at (or does not reach) the depth budget" % (depth_box[0], len(out), n_leaves), config=cfg)
     rep.inst("C17.R-leaf", "approximate() interpreted against fixed subdivision trees (%d scenarios%s): returns eval(a) of the leaves left to right + last control point; "
              "halt sees eval(mid) - (eval(a)+eval(b))/2 of each node: %s" % (len(scen) + 1, "; never-accepting criterion: %d points" % n_deep if n_deep else "", ok_all), config=cfg)
     return ok_all
